@@ -372,7 +372,8 @@ def eval_wf(ctx, case, forest=None):
     if len(allc) >= 2:
         pair = allc[:2]
         queries.append(("classes", pair, [i for i, n in enumerate(model) if set(pair) <= set((dict(n.attrs).get("class") or "").split())]))
-    for k, v in sorted({(k, v) for n in model for k, v in n.attrs if v is not None})[:4]:
+    pairs = sorted({(k, v) for n in model for k, v in n.attrs}, key=repr)
+    for k, v in [pv for pv in pairs if pv[1] is None][:2] + [pv for pv in pairs if pv[1] is not None][:4]:  # a valueless attribute has the value None
         queries.append(("attr", [k, v], [i for i, n in enumerate(model) if dict(n.attrs).get(k, "") == v]))
     for kn, cls in kinds.items():
         queries.append(("type", kn, [i for i, n in enumerate(model) if n.kind == kn]))
